@@ -43,7 +43,7 @@ def unhex (h : String) : Option Str := do
 def str (s : Str) : String := String.ofList s
 
 def dumpSetVal : SetVal → String
-  | .num n => "n" ++ str (formatNum n)
+  | .num n => if n.mant = 0 then "n0" else "n" ++ str (formatNum n)
   | .str s => "s" ++ hexOfStr s
 
 mutual
@@ -77,7 +77,7 @@ mutual
 def inDomain : Expr → Bool
   | .num n => n.inDomain
   | .set vals => vals.all fun
-    | .num n => n.inDomain && (n.scale != 0 || n.mant ≤ 9007199254740992)
+    | .num n => n.inDomain
     | .str _ => true
   | .call _ args => argsInDomain args
   | .paren e => inDomain e
@@ -137,26 +137,33 @@ def lexAll : Nat → ScanSt → List Char → List String → List String
     | .bad _ _ => (showTok t :: acc).reverse
     | _ => lexAll f (st.after t) rest (showTok t :: acc)
 
+def hasBadTok (toks : List Tok) : Bool :=
+  toks.any fun
+    | .bad _ _ => true
+    | _ => false
+
 def exprAnswer (text : Str) : String :=
   match yaccLex (normInput text) with
   | none => "reject"
   | some toks =>
-    if !numToksInDomain toks then "unmodelled"
-    else
-      match yaccParse toks with
-      | none => "reject"
-      | some e =>
-        if !inDomain e then "unmodelled"
-        else
-          let printed := render e
-          let t2c := parseExprChars printed
-          let t2t := parseExpr (print e)
-          let t2 := match t2c with
-            | some e2 => dump e2
-            | none => "err"
-          let pr := if hasBigSet e then "-" else hexOfStr printed
-          let incons := if t2c = t2t then "" else " | MODEL-INCONSISTENT token-level parse differs"
-          "t1 " ++ dump e ++ " | pr " ++ pr ++ " | t2 " ++ t2 ++ incons
+    match yaccParse toks with
+    | none => "reject"
+    | some e =>
+      if !numToksInDomain toks || !inDomain e then "unmodelled"
+      else
+        let printed := render e
+        let t2c := parseExprChars printed
+        let ptoks := print e
+        let t2t := parseExpr ptoks
+        let t2 := match t2c with
+          | some e2 => dump e2
+          | none => "err"
+        let pr := if hasBigSet e then "-" else hexOfStr printed
+        -- the token-level parser (the one the theorems are about) must agree with the
+        -- character-level one, except where `print` marks text that does not scan back (`bad`)
+        let consistent := t2c = t2t || (t2t.isNone && hasBadTok ptoks)
+        let incons := if consistent then "" else " | MODEL-INCONSISTENT token-level parse differs"
+        "t1 " ++ dump e ++ " | pr " ++ pr ++ " | t2 " ++ t2 ++ incons
 
 def step (line : String) : String :=
   match (line.trimAscii.toString.splitOn " ").filter (· ≠ "") with
